@@ -148,6 +148,9 @@ type c01Params struct {
 	Cuts bool `json:"cuts,omitempty"`
 	// Conform: the server-main replica against the real cmd/trz and cmd/tsz binaries (zz_verif_conform.go)
 	Conform bool `json:"conform,omitempty"`
+	// Slow: run W[0] once for every call k of the receiver's write seam, that one call taking 1 s
+	// (a slow disk): "saved" must not be acknowledged before the bytes are written
+	Slow    bool `json:"slow,omitempty"`
 	Shard   int  `json:"shard,omitempty"`
 	NShards int  `json:"nshards,omitempty"`
 }
@@ -159,6 +162,38 @@ func c01Run(j vs.Job) *vs.JobResult {
 	states := map[uint64]struct{}{}
 	if p.Conform {
 		conformRun(r)
+		return r
+	}
+	if p.Slow {
+		base := p.W[0]
+		side := "server"
+		if base.Dir == "down" {
+			side = "client"
+		}
+		hook := "fileWrite"
+		if base.Directory && !base.Overwrite && (base.Protocol == 0 || base.Protocol >= 4) {
+			hook = "archiveWrite"
+		}
+		p.W = nil
+		for k := 1; k <= 4000; k++ {
+			c := base
+			c.Local = &wLocalFault{Side: side, Hook: hook, K: k, Kind: "slow"}
+			w, res := runWorld(c, vs.Config{Trace: j.Replay != nil}, nil, nil, nil)
+			if w.localN < k {
+				break // the transfer makes fewer write calls than that
+			}
+			r.Execs++
+			r.Nontrivial++
+			r.Steps += int64(res.Sched.Steps)
+			r.Outcomes[fmt.Sprintf("srvErr=%v exit=%v", res.SrvErr != "", strings.HasPrefix(res.ClientExit, "Saved"))]++
+			if v := c01Oracle(w, res, true); v != "" {
+				r.Violate("c01:slow:"+firstWords(v, 8), c.String()+": "+v, c)
+				if len(r.Violations) > 3 {
+					break
+				}
+			}
+		}
+		r.Samples = append(r.Samples, fmt.Sprintf("slow destination: %s with each of its %d write calls taking 1 s in turn", base.String(), r.Execs))
 		return r
 	}
 	if p.Cuts {
@@ -328,7 +363,7 @@ func init() {
 	vs.Register(&vs.Check{
 		ID:    "C01",
 		Level: "exploration",
-		Rule:  "configuration vector x source tree x segmentation policy, each executed end to end (real filter, relays, server role) in virtual time; distinct by construction; overwrite also onto destinations that already hold the names (resumed after a proven prefix, different, identical, longer) x base64/binary x compress auto/yes/no; every single cut of the transcript on a core of configurations; 300 files under a descriptor limit of 100",
+		Rule:  "configuration vector x source tree x segmentation policy, each executed end to end (real filter, relays, server role) in virtual time; distinct by construction; overwrite also onto destinations that already hold the names (resumed after a proven prefix, different, identical, longer) x base64/binary x compress auto/yes/no; every single cut of the transcript on a core of configurations; 300 files under a descriptor limit of 100; 9 configurations with each write call of the receiver in turn taking 1 s (slow disk)",
 		Assumptions: []string{
 			"the server main is a replica of the tail of TrzMain/TszMain running the real recvFiles/sendFiles",
 		},
@@ -401,6 +436,16 @@ func init() {
 				for sh := 0; sh < 8; sh++ {
 					jobs = append(jobs, vs.MkJob(fmt.Sprintf("cuts %s %d/8", c.String(), sh), c01Params{W: []wParams{c}, Cuts: true, Shard: sh, NShards: 8}))
 				}
+			}
+			// a slow destination: each write call of the receiver in turn takes a second
+			for _, c := range []wParams{
+				{Dir: "up", Tree: "small3"}, {Dir: "down", Tree: "small3"},
+				{Dir: "up", Tree: "one:R:21000"}, {Dir: "down", Tree: "one:R:21000", Binary: true},
+				{Dir: "up", Tree: "dir", Directory: true}, {Dir: "down", Tree: "dir", Directory: true},
+				{Dir: "up", Tree: "dir", Directory: true, Overwrite: true}, {Dir: "down", Tree: "small3", Protocol: 2},
+				{Dir: "up", Tree: "one:T:10241", Protocol: 1},
+			} {
+				jobs = append(jobs, vs.MkJob("slow destination "+c.String(), c01Params{W: []wParams{c}, Slow: true}))
 			}
 			jobs = append(jobs, vs.MkJob("conformance with the real trz/tsz binaries", c01Params{Conform: true}))
 			return jobs
